@@ -17,7 +17,7 @@ def check_case(rep, case, wrap=False):
     b = tc.build(case, wrap=wrap)
     sig = {'kind': 'case', 'case': tc.case_id(case)}
     if wrap:
-        sig['form'] = 'update names its updater'
+        sig['form'] = 'update names its updater' if wrap is True else str(wrap)
     try:
         eng = tc.make_engine(b)
         before = tc.flatten(eng.state.get_value())
@@ -183,6 +183,8 @@ def run(rep, tier, scratch, only=None):
             if len(set(nodes)) < len(nodes) or any(p['t'] != 'path' for p in c['ports']) \
                     or k % 5 == 0:
                 check_case(rep, c, wrap=True)
+                if len(set(nodes)) < len(nodes):
+                    check_case(rep, c, wrap='mixed0')
         rep.traces += len(sel)
         if sel:
             rep.add_sample(sel[len(sel) // 2])
